@@ -81,6 +81,12 @@ def run(ctx, env):
     ctx.floor("R14.1", "crate", "V5/V7 wire atoms", n, 55)
     from . import loopexit
     loopexit.flowset_repetition_rule(ctx, prog, an, "R14.6")
+    # R14.7 the packet loop itself: nothing but an empty input or an unallowed version ends it without an Error
+    ctx.rule("R14.7", "every branch of the packet loop (parse_bytes, private helpers inlined) is decided by an emptiness test of the current input, an enum discriminant or a drop flag - the contents or length of what is left never end the loop silently, so a truncated tail always reaches a version parser and becomes an Error (shared with C02 R2.4)")
+    from . import c02 as _c02
+    pb = _c02.entry_body(ctx, prog, "R14.7")
+    if pb is not None:
+        _c02.branch_conditions_rule(ctx, an, pb, "R14.7")
     # R14.5 (includes V5/V7 count)
     for adt, field in COUNTED:
         path = c03.parse_be_path(adt)
